@@ -333,11 +333,14 @@ def run_o2(case):
                 t0 = 0.8 if loser == "w" else 0.7
                 kind, t_rel = res.get(loser, ("never", -1))
                 sigs.add(f"o2|{flavor}|queued-then-bounced|bounced:{loser}")
-                if kind != "PoolTimeout" or not (t0 + 5.0 - 1e-3 <= t_rel <= t0 + 5.5 + 1e-3):
-                    v("o2-requeued-request-timeout:" + ("late" if kind == "PoolTimeout" and t_rel > t0 + 5.5 else "other"),
+                # the half second between 3.0 and 3.5 was spent inside a connection, not in the queue: the request has been
+                # queued for its 5 s at t0 + 5.5 - "not earlier, not later"
+                if kind != "PoolTimeout" or abs(t_rel - (t0 + 5.5)) > 1e-3:
+                    v("o2-requeued-request-timeout:" + ("late" if kind == "PoolTimeout" and t_rel > t0 + 5.5 else
+                                                        "early" if kind == "PoolTimeout" else "other"),
                       f"request queued at {t0} with pool timeout 5.0, handed a connection at 3.0, bounced at 3.5 and queued again: "
-                      f"ended {kind} at {t_rel}; expected PoolTimeout between {t0 + 5.0} (deadline from arrival) and {t0 + 5.5} "
-                      f"(5 s queued in all)", {"flavor": flavor, "bounced": loser})
+                      f"ended {kind} at {t_rel}; it has been queued for 5 s in all at {t0 + 5.5} (the time inside the connection "
+                      f"is not queue time)", {"flavor": flavor, "bounced": loser})
                 else:
                     cnt["o2_timeouts_observed"] += 1
             await api.close_pool()
